@@ -17,7 +17,10 @@ NowOf(b) == IF b THEN 15 ELSE 30
 
 CInit == Init /\ mon = MonInit(CfgRec)
 
-CFrame(e) == /\ Frame(e)
+(* environment assumption = the detector's contract (checked on Detector.tla): never motion on the first frame *)
+(* after start-up or a camera reset                                                                           *)
+CFrame(e) == /\ (e.motion => ~mon.afterReset)
+             /\ Frame(e)
              /\ \E E \in {[ev |-> "frame", id |-> fid', motion |-> e.motion, now |-> NowOf(e.win),
                             disk |-> e.disk, calls |-> out']} : mon' = MonStep(mon, E)
 CBad(a, b) == BadFrame(a, b) /\ \E E \in {[ev |-> "bad", isbad |-> TRUE, calls |-> out']} : mon' = MonStep(mon, E)
